@@ -226,7 +226,7 @@ CHECKS["C14"] = dict(
          "filter / uniquify <= c n (and filter_finds under the density hypothesis), zip / interleave with a mapped copy <= n, finite list in front / added <= n, flatten of chunks <= n+1; bound_compose keeps pipelines of any depth linear. Tie: outputs AND "
          "pull counts of the real elements on an instrumented infinite source vs the machines; oracle: the first n items of 27 catalogued "
          "transformations and their compositions arrive within the composed linear bound.",
-    note=COMMON_NOTE + "Partial: CPython's generator protocol and itertools are not modelled (T4); 35 of the 36 catalogue entries run against a Lean machine with a proved bound (every vectorised scalar/list shape is the generic map machine, bound_map for any f; zip / interleave with a mapped copy, a finite list in front or added item by item, vectorising over chunks, flatten of chunks, uniquify have machines of their own); group-consecutive with a bound on the run length); the bound of the remaining one (halve: rational items) is a stated linear bound checked by the oracle only.",
+    note=COMMON_NOTE + "Partial: CPython's generator protocol and itertools are not modelled (T4); 35 of the 36 catalogue entries run against a Lean machine with a proved bound (every vectorised scalar/list shape is the generic map machine, bound_map for any f; zip / interleave with a mapped copy, a finite list in front or added item by item, vectorising over chunks, flatten of chunks, uniquify and group-consecutive - the last two with a window on the search / run length - have machines of their own); the bound of the remaining one (halve: rational items) is a stated linear bound checked by the oracle only.",
     technique="Lean 4 proof (state machines, induction on the number of outputs, a generic step-bound lemma); differential outputs + pull counts; pull-bound oracle",
     ref="§5 C14")
 
